@@ -68,6 +68,9 @@ fn families() -> Vec<Family> {
         f("fails-inside-loop", vec![pi(1), Loop(3, 2), Add, Add]),
         // a heap address beyond 16 bits (fails: addresses are 16-bit; must not be read as address 1, the transaction hash)
         f("loads-heap-address-65537", vec![pi(65537), Load]),
+        // a conditional jump on a byte string (the coin's additional data): Bnz jumps on anything but the integer 0, so the
+        // `pushi 1` is skipped and the covenant rejects
+        f("bnz-on-bytes", vec![pi(0), LoadImm(7), Bnz(1), pi(1)]),
     ]
 }
 
